@@ -1216,7 +1216,10 @@ class Fn:
         if isinstance(node, ast.List):
             return self.list_display(node, env, binds)
         if isinstance(node, ast.ListComp) or isinstance(node, ast.GeneratorExp):
-            raise Unsupported("comprehension other than `[] for _ in range(n)`", node)
+            e = self.empty_lists_of_range(node, env, binds) if isinstance(node, ast.ListComp) else None
+            if e is None:
+                raise Unsupported("comprehension other than `[] for _ in range(n)`", node)
+            return e
         if isinstance(node, ast.UnaryOp) and isinstance(node.op, ast.Not):
             return E(self.cond(node, env, binds), BOOL)
         if isinstance(node, ast.UnaryOp) and isinstance(node.op, ast.USub) and isinstance(node.operand, ast.Constant) \
